@@ -534,6 +534,7 @@ func init() {
 		Level: "fault_enumeration",
 		Rule: "fault = one failure of the real scrape behind the real Proxy.ServeHTTP: connect error, non-200 status {204,400,404,500,503}, stall before headers / mid body beyond the scrape timeout, administrative stop, body breaking off at EVERY wire offset of a 3-chunk body (identity and gzip) with three error kinds {unexpected EOF, generic read error, 'connection reset by peer'}, the same on a multi-block (>64 KiB) body at block boundaries, and over real TCP: short Content-Length body, cut chunked body, RST; " +
 			"each placement observed both through an instrumented ResponseWriter and through a real net/http server+client (the only way to see an aborted response); every case = healthy scrape, faulty scrape, healthy scrape, with /targets/status/ read after each; " +
+			"plus the administrative stop set or lifted while the real request is in flight (identity and gzip, both Prometheus-side modes): the attempt must come out consistently - complete 200 with the full body and health up, or failed response and health down with an error - counter +1 either way; healthy scrapes use a 120 s scrape timeout (only the stall faults use 1 s), and a case whose healthy scrapes time out is repeated up to three times, then inconclusive; " +
 			"non-trivial = every case (each executes a fault or the control); distinct = (kind, Prometheus-side mode, encoding, offset)",
 		Assumptions: []string{
 			"in-memory targets are an http.RoundTripper installed in JobInfo.Cli (exported field); their Read errors repeat once raised, as net/http bodies do",
